@@ -9,7 +9,8 @@ columns; or a sqlite table with text and integer columns) in a temp dir:
             of `start()` calls are compared with `DsIter.runN`.
   site      a recipe through `snowfakery.data_generator.generate` whose consuming template takes
             one record per row at a `Dataset.iterate` / `Dataset.shuffle` field (top-level, nested,
-            friend; one or two independent sites); compared with `DsIter.consume`.
+            friend, inside a for_each template, inside an update-mode recipe; one or two
+            independent sites); compared with `DsIter.consume` (= `consumeAt` for every placement).
   for_each  a `for_each` template (top-level / nested / friend) — compared with
             `DsIter.forEachExecs`.
   update    update mode (`update_input_file`, passthrough fields, 1..3 iterations, raw capture
@@ -360,7 +361,10 @@ def build_site_recipe(case, ref, extra):
     if ctx:
         # the consuming site lies inside a for_each template over a second dataset with `p` records
         fe = ["for_each:", "  var: orow", "  value:", "    Dataset.iterate:", f"      dataset: {case['_outer']}"]
-        if ctx == "fe_self":
+        if ctx == "upd":
+            # update mode: the recipe is this one template; `input` is bound by --update-input-file
+            lines += _template("C", 0, [], ["tag: ${{input.k}}"] + fields)
+        elif ctx == "fe_self":
             lines += _template("C", 0, fe, ["tag: ${{orow.k}}"] + fields)
         elif ctx == "fe_nested":
             child = _template("C", 6, head, fields)
@@ -596,7 +600,10 @@ def run_site_case(case, folder):
     text = build_site_recipe(case, ref, extra)
     total = case["reps"] * case["p"] * case["q"]
     with instrument(case["seed"]) as log:
-        res = run_generate(text, reps=case["reps"], row_cap=total * 2 + case["reps"] * case["p"] + 30, folder=folder)
+        if case.get("context") == "upd":
+            res = run_generate(text, reps=None, row_cap=total * 2 + 30, folder=folder, update_input_file=case["_outer"])
+        else:
+            res = run_generate(text, reps=case["reps"], row_cap=total * 2 + case["reps"] * case["p"] + 30, folder=folder)
     return {"outcome": res.outcome, "error": res.error, "rows": consumer_rows(res), "passes": passes_by_iterator(log),
             "recipe": text}
 
@@ -615,8 +622,9 @@ def site_expectation(case):
 
 
 def oracle_site(rep, case, real):
-    """Generic oracle; inside a for_each template a failure that goes together with "one new
-    iterator per consuming row" (seen by the instrumentation) gets the specific D23 signature."""
+    """Generic oracle; inside a for_each template / update recipe a failure that goes together with
+    "one new iterator per consuming row" (seen by the instrumentation) gets the specific signature of
+    D40 (repaired by a90df5d: a regression is reported under that signature)."""
     if not case.get("context"):
         return oracle_site_generic(rep, case, real)
     tmp = common.Report("C17")
@@ -629,7 +637,7 @@ def oracle_site(rep, case, real):
     if v["signature"] in ("C17:iterate-wrong-record", "C17:exhaustion-not-error", "C17:shuffle-cycle-not-permutation",
                           "C17:consumer-row-count") and fresh >= 2 and fresh >= evaluations:
         rep.violation("C17:site-inside-for-each-restarts",
-                      f"a Dataset.{case['fn']} field inside a for_each template ({case['context']}) builds a new iterator for every "
+                      f"a Dataset.{case['fn']} field inside a for_each template / update recipe ({case['context']}) builds a new iterator for every "
                       f"row ({fresh} iterators for {evaluations} rows): " + v["what"], case, v["expected"], v["observed"])
     else:
         rep.violation(v["signature"], v["what"], case, v["expected"], v["observed"])
@@ -869,18 +877,6 @@ def model_request(case, real):
             return None, None
         reqs, codes = [], []
         total = case["reps"] * case["p"] * case["q"]
-        if case.get("context"):
-            its = real["passes"]
-            mode = "linear" if case["fn"] == "iterate" else ("shuffle" if ds["kind"] == "csv" else "oracle")
-            req = {"m": "c17.consume_fresh", "mode": mode, "n": n, "count": total,
-                   "repeat": True if case["repeat"] is None else case["repeat"]}
-            if mode == "shuffle":
-                req["draws"] = [(p[0].get("draws", []) if p else []) for p in its]
-            elif mode == "oracle":
-                first = ds["header"][0]
-                req["orders"] = [[index_of(r.get(first), ds) for r in (p[0].get("order", []) if p else [])] for p in its]
-            idxs = [row_record_index(r, "s0c", case) for r in real["rows"]]
-            return [req], [{"rows": idxs, "error": real["outcome"] == "recipe_error", "fresh": True}]
         # iterators are numbered in order of creation: site 0 first, then site 1
         its = real["passes"]
         nsites = case.get("sites", 1)
@@ -941,11 +937,6 @@ def compare_with_model(rep, case, req, code, answers):
             rep.disagreement("c17.iter", case, val, code)
     elif kind == "site":
         for (st, val), c in zip(answers, code):
-            if c.get("fresh"):
-                if val["rows"] != c["rows"] or val["error"] != c["error"]:
-                    rep.disagreement("c17.consume_fresh", case, val, c)
-                    return
-                continue
             if val["rows"] != c["rows"] or val["error"] != c["error"] or val["passes"] != c["passes"]:
                 rep.disagreement("c17.consume", case, val, c)
                 return
@@ -1082,11 +1073,13 @@ def gen_site_case(rng):
             "reps": reps, "cols": cols, "sites": 2 if rng.random() < 0.2 else 1,
             "relative": rng.random() < 0.25, "seed": rng.randrange(2**32)}
     case["cols"] = [cols[0]] + [respell(rng, c) for c in cols[1:]]
-    if rng.random() < 0.15:
-        # the consuming site inside a for_each template (own field / nested template / friend)
-        ctx = rng.choice(["fe_self", "fe_nested", "fe_friend"])
+    if rng.random() < 0.2:
+        # the consuming site inside a for_each template / an update-mode recipe (own field / nested template / friend)
+        ctx = rng.choice(["fe_self", "fe_nested", "fe_friend", "upd"])
         case.update(context=ctx, placement=ctx, sites=1, relative=False, p=rng.choice([1, 2, 3, n or 2, (n or 1) + 1]))
-        if ctx == "fe_self":
+        if ctx == "upd":
+            case.update(q=1, reps=1)
+        elif ctx == "fe_self":
             case["q"] = 1
         else:
             case["q"] = rng.choice([1, 1, 2, 3])
@@ -1163,7 +1156,7 @@ def run(ctx, rep, findings):
         cases.append(gen_for_each_case(rng))
     for _ in range(ctx.scale(300, 3000)):
         cases.append(gen_update_case(rng))
-    # D16 family: update_key + CSV output (also generated, so that a repair shows as "no longer reproduces")
+    # D16 family (repaired by bc0f717): update_key + CSV output stays generated as a regression stream
     for _ in range(ctx.scale(3, 20)):
         c = gen_update_case(rng)
         for row in c["ds"]["rows"]:
